@@ -70,7 +70,11 @@ func ProductSpecs(tier string) []*ProductSpec {
 			for _, t := range trees {
 				ts = append(ts, t())
 			}
-			out = append(out, &ProductSpec{Name: fmt.Sprintf("%s/%s", name, pol), Trees: ts, Policy: pol, MaxDev: 1})
+			dev := 1
+			if th {
+				dev = 2
+			}
+			out = append(out, &ProductSpec{Name: fmt.Sprintf("%s/%s", name, pol), Trees: ts, Policy: pol, MaxDev: dev})
 		}
 	}
 	// node48 released (sparse slot layout) by one tree, node48 acquired by another
